@@ -21,6 +21,7 @@ def run(ctx, replay):
         walcommon.run_wal(ctx, ["--histories", 0, "--groupfail", 12], "groupfail")
         walcommon.run_wal(ctx, ["--histories", 0, "--big", 6], "big")
         walcommon.run_wal(ctx, ["--histories", 0, "--groupconc", 60], "groupconc")
+        walcommon.run_wal(ctx, ["--histories", 0, "--boundarygc", 8], "boundarygc")
     else:
         tr = walcommon.run_wal(ctx, ["--histories", 60, "--ops", 80, "--images", 2, "--grouptail"], "g")
         # group creation disturbed between its two durable steps (mkdir by the page factory / meta page file): the page
@@ -30,6 +31,10 @@ def run(ctx, replay):
         walcommon.run_wal(ctx, ["--histories", 0, "--big", 1], "big")
         # one thread consumes while another one acknowledges on the same group, gated at every group-meta store
         walcommon.run_wal(ctx, ["--histories", 0, "--groupconc", 10], "groupconc")
+        # Sync + GC while the acknowledged position and the append position lie in different index pages (262144 entries
+        # each) and different data pages: GC must release exactly the data pages below the one holding the acknowledged
+        # message
+        walcommon.run_wal(ctx, ["--histories", 0, "--boundarygc", 2], "boundarygc")
     vcore.corrupt_selftest(ctx, "WALQueueTrace", "WALQueueTrace.cfg", tr, walcommon.mutate_proj, "a message reads back other bytes")
 
     def bump_ack(lines):
